@@ -203,8 +203,13 @@ package ss2022
 
 //@ pure spcuSessionsUnchanged(p *ShadowPacketClientUnpacker) bool = unchanged(p.currentServerSessionID, p.currentServerSessionAEAD, p.currentServerSessionFilter, p.oldServerSessionID, p.oldServerSessionAEAD, p.oldServerSessionFilter, p.oldServerSessionLastSeenTime)
 
+// Object invariant of the Shadowsocks 2022 client unpacker (what UnpackInPlace needs of its own state and
+// re-establishes on every return, so that a relay loop can call it again).
+//@ pure spcuWF(p *ShadowPacketClientUnpacker) bool = swfOptWF(p.currentServerSessionFilter) && swfOptWF(p.oldServerSessionFilter) && p.filterSize >= 1 && p.filterSize <= 1 << 32 && (!isnil(p.currentServerSessionAEAD) ==> !isnil(p.currentServerSessionFilter)) && (!isnil(p.oldServerSessionAEAD) ==> !isnil(p.oldServerSessionFilter)) && (!isnil(p.currentServerSessionFilter) && !isnil(p.oldServerSessionFilter) ==> p.currentServerSessionFilter != p.oldServerSessionFilter && !samearray(p.currentServerSessionFilter.ring, p.oldServerSessionFilter.ring))
+
 //@ func (*ShadowPacketClientUnpacker).UnpackInPlace
 //@   requires 0 <= packetStart && 0 <= packetLen && packetStart <= len(b) && packetLen <= len(b) && packetStart + packetLen <= len(b)
+//@   ensures spcuWF(p)
 //@   requires swfOptWF(p.currentServerSessionFilter) && swfOptWF(p.oldServerSessionFilter) && p.filterSize >= 1 && p.filterSize <= 1 << 32
 //@   requires !isnil(p.currentServerSessionAEAD) ==> !isnil(p.currentServerSessionFilter)
 //@   requires !isnil(p.oldServerSessionAEAD) ==> !isnil(p.oldServerSessionFilter)
